@@ -513,6 +513,14 @@ fn check_case(c: &Case, out: &Outcome<CaseObs>) -> Option<(String, String)> {
             };
             let r = check_vec(name, rate, s, &o, &|x: &f64| x.is_finite());
             if r.is_none() {
+                if let (RealOp::Uniform(_), Outcome::Done((_, pops))) = (op, &o) {
+                    // the delta comes from [-bound, bound] with bound = 0.5
+                    for (i, (sol, _)) in pops[0].iter().enumerate() {
+                        if sol.iter().zip(&s[i]).any(|(x, old)| (x - old).abs() > 0.5 + 1e-12) {
+                            return Some((format!("C13 op=UniformMutation rate={} delta-exceeds-bound", rate), format!("{:?} -> {:?} with bound 0.5", s[i], sol)));
+                        }
+                    }
+                }
                 if let (RealOp::PartialRandomSpread(_), Outcome::Done((_, pops))) = (op, &o) {
                     // resampled coordinates stay inside the domain [-1, 2)
                     for (i, (sol, _)) in pops[0].iter().enumerate() {
@@ -619,9 +627,18 @@ fn component_cases(thorough: bool) -> Vec<Case> {
         let rev: Vec<usize> = (0..n).rev().collect();
         let mut rot = id.clone();
         rot.rotate_left(1);
-        let pops: Vec<Vec<Vec<usize>>> = vec![vec![id.clone()], vec![rev.clone(), id.clone()], vec![rot.clone(), rev.clone(), id.clone()]];
+        let pops: Vec<Vec<Vec<usize>>> = vec![vec![id.clone()], vec![rev.clone(), id.clone()], vec![rot.clone(), rev.clone(), id.clone()], vec![rev.clone(), rev.clone()], vec![rot.clone(), rot.clone(), id.clone(), id.clone()]];
         for (pi, p) in pops.iter().enumerate() {
             if !thorough && pi == 2 {
+                continue;
+            }
+            if pi >= 3 {
+                // populations with identical consecutive parents: crossovers only
+                for pc in [0.0, 0.5, 1.0] {
+                    for both in [false, true] {
+                        cases.push(Case::CrossPerm(pc, both, n, p.clone()));
+                    }
+                }
                 continue;
             }
             for k in 2..=n as u32 {
@@ -645,6 +662,18 @@ fn component_cases(thorough: bool) -> Vec<Case> {
         let a: Vec<f64> = (0..d).map(|i| i as f64 * 0.5 - 0.75).collect();
         let b: Vec<f64> = (0..d).map(|i| 1.5 - i as f64 * 0.25).collect();
         let c: Vec<f64> = (0..d).map(|i| 0.125 * (i as f64 + 1.0)).collect();
+        // identical consecutive parents (crossovers only)
+        for p in [vec![b.clone(), b.clone()], vec![a.clone(), a.clone(), c.clone()]] {
+            for pc in [0.5, 1.0] {
+                for both in [false, true] {
+                    cases.push(Case::CrossReal(XOp::Uniform, pc, both, p.clone()));
+                    cases.push(Case::CrossReal(XOp::Arithmetic, pc, both, p.clone()));
+                    for np in 1..d {
+                        cases.push(Case::CrossReal(XOp::NPoint(np), pc, both, p.clone()));
+                    }
+                }
+            }
+        }
         let pops = vec![vec![a.clone()], vec![a.clone(), b.clone()], vec![a.clone(), b.clone(), c.clone()]];
         for p in &pops {
             for r in [0.0, 0.5, 1.0] {
@@ -888,7 +917,57 @@ pub fn replay(case: &Value) -> Result<Vec<(String, String)>, String> {
         return Ok(match h {
             "circular_swap" => check_swap(&us(&case["perm"]), &us(&case["indices"])).into_iter().collect(),
             "translocate_slice" => check_translocate(case["n"].as_u64().unwrap() as usize, case["start"].as_u64().unwrap() as usize, case["end"].as_u64().unwrap() as usize, case["index"].as_u64().unwrap() as usize).into_iter().collect(),
-            _ => return Err("helper crossover cases are re-checked by the full run".into()),
+            "mpx" => {
+                let n = case["n"].as_u64().unwrap() as usize;
+                let p1: Vec<Gene> = (0..n).map(|i| (1, i as u8)).collect();
+                let p2: Vec<Gene> = (0..n).map(|i| (2, i as u8)).collect();
+                let c = us(&case["cuts"]);
+                match catch(|| rf::multi_point_crossover(&p1, &p2, &c)) {
+                    Ok(ch) => if genes_ok(&p1, &p2, &ch) { vec![] } else { vec![("C13 helper=multi_point_crossover genes".to_string(), format!("{:?}", ch))] },
+                    Err(e) => vec![("C13 helper=multi_point_crossover panic".to_string(), e)],
+                }
+            }
+            "ux" => {
+                let n = case["n"].as_u64().unwrap() as usize;
+                let p1: Vec<Gene> = (0..n).map(|i| (1, i as u8)).collect();
+                let p2: Vec<Gene> = (0..n).map(|i| (2, i as u8)).collect();
+                let mask: Vec<bool> = case["mask"].as_array().unwrap().iter().map(|b| b.as_bool().unwrap()).collect();
+                match catch(|| rf::uniform_crossover(&p1, &p2, &mask)) {
+                    Ok(ch) => {
+                        let exact = (0..n).all(|i| if mask[i] { ch[0][i] == p2[i] && ch[1][i] == p1[i] } else { ch[0][i] == p1[i] && ch[1][i] == p2[i] });
+                        if genes_ok(&p1, &p2, &ch) && exact { vec![] } else { vec![("C13 helper=uniform_crossover genes".to_string(), format!("{:?}", ch))] }
+                    }
+                    Err(e) => vec![("C13 helper=uniform_crossover panic".to_string(), e)],
+                }
+            }
+            "ax" => {
+                let n = case["n"].as_u64().unwrap() as usize;
+                let alphas: Vec<f64> = case["alphas"].as_array().unwrap().iter().map(|b| b.as_f64().unwrap()).collect();
+                let q1: Vec<f64> = (0..n).map(|i| i as f64 - 1.5).collect();
+                let q2: Vec<f64> = (0..n).map(|i| 10.0 - 2.5 * i as f64).collect();
+                match catch(|| rf::arithmetic_crossover(&q1, &q2, &alphas)) {
+                    Ok(ch) => {
+                        let ok = ch[0].len() == n && ch[1].len() == n && (0..n).all(|i| {
+                            let (lo, hi) = (q1[i].min(q2[i]), q1[i].max(q2[i]));
+                            ch[0][i] >= lo - 1e-12 && ch[0][i] <= hi + 1e-12 && ch[1][i] >= lo - 1e-12 && ch[1][i] <= hi + 1e-12 && ((ch[0][i] + ch[1][i]) - (q1[i] + q2[i])).abs() < 1e-9 && (ch[0][i] - (alphas[i] * q1[i] + (1.0 - alphas[i]) * q2[i])).abs() < 1e-9
+                        });
+                        if ok { vec![] } else { vec![("C13 helper=arithmetic_crossover convexity".to_string(), format!("{:?}", ch))] }
+                    }
+                    Err(e) => vec![("C13 helper=arithmetic_crossover panic".to_string(), e)],
+                }
+            }
+            "cx" => {
+                let (a, b) = (us(&case["a"]), us(&case["b"]));
+                let n = a.len();
+                match catch(|| rf::cycle_crossover(&a, &b)) {
+                    Ok(ch) => {
+                        let ok = is_permutation(&ch[0], n) && is_permutation(&ch[1], n) && (0..n).all(|i| (ch[0][i] == a[i] && ch[1][i] == b[i]) || (ch[0][i] == b[i] && ch[1][i] == a[i]));
+                        if ok { vec![] } else { vec![("C13 helper=cycle_crossover genes".to_string(), format!("{:?}", ch))] }
+                    }
+                    Err(e) => vec![("C13 helper=cycle_crossover panic".to_string(), e)],
+                }
+            }
+            other => return Err(format!("unknown helper {}", other)),
         });
     }
     // component case: find it again by its description
